@@ -36,7 +36,7 @@ REQUIRED = {
 
 
 def budget(tier):
-    return 400 if tier == "quick" else 12000
+    return 400 if tier == "quick" else 48000
 
 
 def gen_case(rng, tier, idx):
